@@ -209,21 +209,23 @@ class Interp:
             raise Unrecognised("recursive getter")
         sub = Interp(self.repo, self.cls)
         sub.depth = self.depth + 1
-        body = [s for s in g.body if not (isinstance(s, ast.Expr) and isinstance(s.value, ast.Constant))]
-        ret = [s for s in body if isinstance(s, ast.Return)]
-        if len(ret) != 1 or not (isinstance(ret[0].value, ast.Attribute) and norm(ret[0].value.value) == "self"):
-            raise Unrecognised("cycle_init_timesteps does not return a slot of self")
-        slot = ret[0].value.attr
-        stmts = []
-        for s in body:
-            if isinstance(s, ast.If):
-                stmts += s.body  # the compute path of the memo
-                if s.orelse:
-                    raise Unrecognised("memo getter with else branch")
-            elif isinstance(s, ast.Return):
-                break
-            else:
-                stmts.append(s)
+        from ..flowtools import memo_form
+
+        mf = memo_form(g)
+        if mf is not None:
+            slot = mf["slot"]
+            stmts = mf["compute"]
+        else:
+            body = [s for s in g.body if not (isinstance(s, ast.Expr) and isinstance(s.value, ast.Constant))]
+            ret = [s for s in body if isinstance(s, ast.Return)]
+            if len(ret) != 1 or not isinstance(ret[0].value, (ast.Attribute, ast.Name)):
+                raise Unrecognised("cycle_init_timesteps is neither a memo getter nor a straight-line computation")
+            # no memo: the value is computed on every query and returned
+            stmts = [s for s in body if not isinstance(s, ast.Return)]
+            slot = None
+            for s in stmts:
+                sub.exec(s)
+            return sub.ev(ret[0].value)
         for s in stmts:
             sub.exec(s)
         if ("self." + slot) not in sub.env:
@@ -240,6 +242,14 @@ class Interp:
             return
         if isinstance(s, ast.Assert):
             return
+        if isinstance(s, ast.For) and not s.orelse and len(s.body) == 1 and isinstance(s.body[0], ast.Expr) and isinstance(s.body[0].value, ast.Call):
+            # lst = []; for el in <elements>: lst.append(el.duration)
+            c = s.body[0].value
+            if isinstance(c.func, ast.Attribute) and c.func.attr == "append" and isinstance(c.func.value, ast.Name) and self.env.get(c.func.value.id) == ("emptylist",) and len(c.args) == 1:
+                a = c.args[0]
+                if isinstance(a, ast.Attribute) and a.attr == "duration" and norm(a.value) == norm(s.target) and self.ev(s.iter) == ("elements",):
+                    self.env[c.func.value.id] = Durations("elements")
+                    return
         if isinstance(s, ast.If):
             pos, neg = self.cond_facts(s.test)
             a, b = Interp(self.repo, self.cls, self.tparam), Interp(self.repo, self.cls, self.tparam)
@@ -329,6 +339,25 @@ class Interp:
     def _ev(self, e):
         if isinstance(e, ast.Constant) and isinstance(e.value, int) and not isinstance(e.value, bool):
             return Lin({"1": e.value})
+        if isinstance(e, (ast.List,)) and not e.elts:
+            return ("emptylist",)
+        if isinstance(e, ast.Call) and call_name(e) in ("list",) and not e.args:
+            return ("emptylist",)
+        if isinstance(e, ast.Call) and isinstance(e.func, ast.Attribute) and isinstance(e.func.value, ast.Name) and e.func.value.id in ("self", "cls") and self.depth < 4:
+            # a same-class helper: interpret its straight-line body with the parameters bound to the arguments
+            _o, h = self.repo.find_method(self.cls, e.func.attr)
+            if h is not None and not e.keywords:
+                hp = [a.arg for a in h.args.args][1:]
+                if len(hp) == len(e.args):
+                    sub = Interp(self.repo, self.cls, None)
+                    sub.depth = self.depth + 1
+                    for pn, a in zip(hp, e.args):
+                        sub.env[pn] = self.ev(a)
+                    for st in h.body:
+                        if isinstance(st, ast.Return):
+                            return sub.ev(st.value)
+                        sub.exec(st)
+                    raise Unrecognised("helper %s has no straight-line return" % h.name)
         if isinstance(e, ast.Name):
             if e.id == self.tparam:
                 return Lin({"t": 1})
@@ -550,9 +579,14 @@ def run(repo, res, tier):
     tp = [a.arg for a in d.args.args][1]
     rets = [s for s in walk_no_nested(d) if isinstance(s, ast.Return)]
     calls = [r.value for r in rets if isinstance(r.value, ast.Call) and isinstance(r.value.func, ast.Attribute) and r.value.func.attr == "get_state_at_time_step"]
-    res.check("CYC-DELEGATE", "TrafficLight returns its cycle's answer", len(rets) == 1 and len(calls) == 1 and len(body) == 1 and norm(calls[0].func.value) in ("self.traffic_light_cycle", "self._traffic_light_cycle"), m, d, " ; ".join(norm(s) for s in body)[:120], "the traffic light does not report what its cycle reports", qualname=qn)
+    from ..core import canon as _canon
+    from ..dataflow import ReachingDefs as _RD
+
+    drd = _RD(d)
+    only_simple = all(isinstance(x, (ast.Return, ast.Assign, ast.AnnAssign)) for x in body)
+    res.check("CYC-DELEGATE", "TrafficLight returns its cycle's answer", len(rets) == 1 and len(calls) == 1 and only_simple and _canon(calls[0].func.value, drd, rets[0], [tp]) == "self.traffic_light_cycle", m, d, " ; ".join(norm(s) for s in body)[:120], "the traffic light does not report what its cycle reports", qualname=qn)
     for cl in calls:
-        res.check("CYC-DELEGATE", "TrafficLight asks about the queried time step", [norm(a) for a in cl.args] + [norm(k.value) for k in cl.keywords] == [tp], m, cl, norm(cl), "the cycle is asked about another time step", qualname=qn)
+        res.check("CYC-DELEGATE", "TrafficLight asks about the queried time step", [_canon(a, drd, rets[0], [tp]) for a in cl.args] + [_canon(k.value, drd, rets[0], [tp]) for k in cl.keywords] == [tp], m, cl, norm(cl), "the cycle is asked about another time step", qualname=qn)
     # the table is a memo: the reported state follows the *current* definition only if every mutator refreshes it
     from . import c11
 
